@@ -2,18 +2,24 @@
 
 use crate::diagnostics::{Diagnostic, Diagnostics, Error};
 use crate::grammar::*;
+use crate::slice_file::Span;
+use std::collections::HashMap;
+
+/// Stores, for each struct whose fields have already been checked, a `(message, span)` pair for each of its fields
+/// that can't be used in a dictionary key (so it's empty for structs that are valid key types).
+type CheckedStructs = HashMap<*const Struct, Vec<(String, Option<Span>)>>;
 
 pub fn validate_dictionary(dictionary: &Dictionary, diagnostics: &mut Diagnostics) {
     has_allowed_key_type(dictionary, diagnostics);
 }
 
 fn has_allowed_key_type(dictionary: &Dictionary, diagnostics: &mut Diagnostics) {
-    if let Some(e) = check_dictionary_key_type(&dictionary.key_type) {
+    if let Some(e) = check_dictionary_key_type(&dictionary.key_type, &mut CheckedStructs::new()) {
         e.push_into(diagnostics)
     }
 }
 
-fn check_dictionary_key_type(type_ref: &TypeRef) -> Option<Diagnostic> {
+fn check_dictionary_key_type(type_ref: &TypeRef, checked_structs: &mut CheckedStructs) -> Option<Diagnostic> {
     // Optional types cannot be used as dictionary keys.
     if type_ref.is_optional {
         return Some(Diagnostic::new(Error::KeyMustBeNonOptional).set_span(type_ref.span()));
@@ -29,11 +35,19 @@ fn check_dictionary_key_type(type_ref: &TypeRef) -> Option<Diagnostic> {
 
             // Check that all the fields of the struct are also valid key types.
             // We collect the invalid fields so we can report them in the error message.
-            let errors = struct_def
-                .fields()
-                .into_iter()
-                .filter_map(|field| check_dictionary_key_type(field.data_type()))
-                .collect::<Vec<_>>();
+            // A struct can be used by many fields (of other structs in the key), but its own fields are only checked once.
+            let struct_ptr: *const Struct = struct_def;
+            if !checked_structs.contains_key(&struct_ptr) {
+                let errors = struct_def
+                    .fields()
+                    .into_iter()
+                    .filter_map(|field| check_dictionary_key_type(field.data_type(), checked_structs))
+                    .map(|e| (e.message(), e.span().cloned()))
+                    .collect::<Vec<_>>();
+                checked_structs.insert(struct_ptr, errors);
+            }
+
+            let errors = &checked_structs[&struct_ptr];
             if !errors.is_empty() {
                 let mut error = Diagnostic::new(Error::StructKeyContainsDisallowedType {
                     struct_identifier: struct_def.identifier().to_owned(),
@@ -41,8 +55,8 @@ fn check_dictionary_key_type(type_ref: &TypeRef) -> Option<Diagnostic> {
                 .set_span(type_ref.span());
 
                 // Convert each error into a note and add it to the struct key error.
-                for e in errors {
-                    error = error.add_note(e.message(), e.span());
+                for (message, span) in errors {
+                    error = error.add_note(message, span.as_ref());
                 }
                 return Some(error);
             }
